@@ -107,6 +107,14 @@ class CallMixin:
     # ------------------------------------------------------------------
     def inline(self, func, selfterm, args, kw, st, fx, node, outer_env=None, bound=True):
         """Inline a repository function; yields (status, term, state)."""
+        if func.is_generator:
+            # calling a generator function runs none of its body: the result is an iterator object, its body runs where it is consumed
+            # (a for loop over the call is walked by _for_generator; any other consumer of this term has no reading and ends the analysis)
+            recv = selfterm if (func.cls is not None and not func.is_static and bound) else None
+            if func.cls is not None and not func.is_static and not bound and args:
+                recv, args = args[0], list(args)[1:]
+            yield "ok", ("genobj", func.qual, tuple(args), recv, tuple(sorted((kw or {}).items()))), st
+            return
         if func.qual not in st.frames and len(st.frames) >= self.inline_depth:
             # never judge code that was not looked at: a call chain deeper than the inlining bound is an analysis failure
             raise AnalysisError("inlining bound %d exhausted at %s:%d calling %s (chain %s)" % (
@@ -181,6 +189,16 @@ class CallMixin:
 
     # ------------------------------------------------------------------
     def call(self, f, args, kw, st, fx, node):
+        from .terms import has_genobj
+        if any(has_genobj(a) for a in list(args) + list(kw.values())):
+            # a generator object handed to something: fine when a repository function receives it (what that does with it is walked) or
+            # when it is only packed by chain()/from_iterable() (the loop over the packed value is rewritten into loops over the parts);
+            # anything else consumes it in a way that has no reading here
+            k0 = f[0] if isinstance(f, tuple) and f else None
+            nm = f[2] if k0 in ("attr", "extattr") and len(f) > 2 else (f[1] if k0 in ("ext", "builtin", "extfunc") and len(f) > 1 else None)
+            if k0 not in ("bm", "func", "closure") and not (isinstance(nm, str) and nm.split(".")[-1] in ("chain", "from_iterable")) \
+                    and "chain" not in show(f):
+                raise AnalysisError("a generator object is consumed by %s at %s:%d: not read" % (show(f), fx.func.file, getattr(node, "lineno", 0)))
         if not isinstance(f, tuple):
             yield "ok", ("call", f, tuple(args)), st
             return
